@@ -210,7 +210,8 @@ def install(E):
 
     def ti_ens(c):
         s, d = X('s'), X('d')
-        return [('exactly_transitions', z3.ForAll([s, d], c.res.x.mem[s, d] == edge(c.h0, c.self.t, s, d)))]
+        return [('exactly_transitions', hp.FA([s, d], c.res.x.mem[s, d] == edge(c.h0, c.self.t, s, d),
+                                              [c.res.x.mem[s, d], succ(c.h0, c.self.t, s)[d]]))]
 
     reg(Contract(
         'Kripke.transitions_iter', 'kripke', [('self', 'kripke')], ret='coll:pair',
